@@ -98,6 +98,8 @@ def lazy_vs_eager(lazy, eager):
         if en is None:
             errs.append(("lazy-extra", f"lazily expanded {name} does not exist in the complete parse"))
             continue
+        if ln["clone_source"] or en["clone_source"]:
+            continue  # a clone source keeps an arbitrary first producer and is never run: its clones are compared instead
         ls = sorted((p, tuple(o)) for p, o in ln["setup"].items() if not l_names.get(p, {}).get("flat") and not l_names.get(p, {}).get("shared_root"))
         es = sorted((p, tuple(o)) for p, o in en["setup"].items() if not e_names.get(p, {}).get("flat") and not e_names.get(p, {}).get("shared_root"))
         if ls != es:
@@ -107,6 +109,27 @@ def lazy_vs_eager(lazy, eager):
     if missing:
         errs.append(("lazy-missing", f"{len(missing)} tests of the complete parse were expanded by no worker, e.g. {sorted(missing)[0]}"))
     return errs
+
+
+_eager_facts = {}
+
+
+def c09dyn(scn, x):
+    """Monitor for lazy scenarios under arbitrary schedules: the expanded graph agrees with the complete parse, copies are linked and share bookkeeping."""
+    if x.exc:
+        return [{"what": f"lazy traversal failed: {x.exc}", "signature": {"clause": "lazy-exception"}}]
+    key = scn.parse_key()
+    if key not in _eager_facts:
+        g = parse_eager({"restriction": scn.restriction if "only " in scn.restriction else f"only {scn.restriction}\n", "vm_strs": scn.vm_strs, "nets": scn.nets})
+        _eager_facts[key] = parsemc.graph_facts(g)
+    lazy = parsemc.graph_facts(x.graph)
+    out = []
+    for kind, msg in lazy_vs_eager(lazy, _eager_facts[key]):
+        out.append({"what": msg, "signature": {"clause": kind}})
+    for kind, msg in parsemc.copies(lazy):
+        if kind in ("edges-differ", "not-linked", "link-asymmetric", "bookkeeping-not-shared", "link-wrong"):
+            out.append({"what": "after lazy expansion: " + msg, "signature": {"clause": "lazy-" + kind}})
+    return out
 
 
 def run_parse_check(prop, tier, seed, technique, rule, assumptions):
@@ -143,6 +166,34 @@ def run_parse_check(prop, tier, seed, technique, rule, assumptions):
             rep.violation(f"[{res['id']}] {msg}", {"input": res["id"], "kind": kind, "message": msg}, {"kind": kind})
         if len(rep.samples) < 3 and res["nodes"]:
             rep.sample({"input": res["id"], "nodes": res["nodes"], "composite_nodes": res["composites"], "clone_sources": res["clone_sources"]})
+    if prop == "C09":
+        # lazy expansion under all schedules within k deviations (the order in which workers unroll flat tests is the traversal schedule)
+        from vt.e1 import scenarios as S
+
+        dyn = [(S.T2(lazy=True), 1), (S.T3(lazy=True), 1), (S.G1(), 1 if tier == "quick" else 2), (S.G2(), 0 if tier == "quick" else 1),
+               (S.T2("net1 net2 net3", lazy=True), 1)]
+        dyn_rows = []
+        for scn, k in dyn:
+            scn.keep_graph = True
+            scn.params["dry_run"] = "no"
+            res = engine.explore(scn, c09dyn, k, time.time() + (120 if tier == "quick" else 900), seed)
+            rep.evaluations += res.executions
+            rep.traces_validated += res.executions
+            rep.transitions += res.transitions
+            rep.states += len(res.histories)
+            for sig in res.outcomes:
+                rep.distinct.add((scn.name, sig))
+            seen = set()
+            for v in res.violations:
+                kk = json.dumps(v["signature"], sort_keys=True)
+                if kk in seen:
+                    continue
+                seen.add(kk)
+                rep.violation(f"[{scn.name}] {v['what']}", v["replay"], dict(v["signature"], scenario=scn.name.split(":")[0]))
+            dyn_rows.append({"scenario": scn.name, "k": k, "executions": res.executions, "complete": res.complete, "distinct_outcomes": len(res.outcomes)})
+            if not res.complete:
+                rep.exhaustive = False
+        rep.sections["lazy_under_schedules"] = dyn_rows
     rep.sections["inputs"] = sorted(per, key=lambda r: r["input"])
     rep.bounds = {"inputs": len(ins), "workers": "1-3", "suite": "mini (shipped sets/groups/nets/vms configs, trimmed guest configs)"}
     rep.extra["inputs_skipped_empty"] = sum(1 for p in per if p.get("skipped"))
